@@ -2,6 +2,7 @@ package main
 
 import (
 	"fmt"
+	"go/token"
 	"os"
 	"strings"
 
@@ -75,7 +76,7 @@ func checkC06(c *Ctx) (string, []string) {
 		"ret#3": {"0", c.constStr("PVM", "ExitPanic")},
 	})
 
-	c.Rule("C06.rejection", "DecodeSerializedValues checks the error of every ReadUintFixed/ReadBytes before the next read or a successful return and reads the fields in the order E3|o| E3|w| E2 z E3 s o w E4|c| c; SingleInitializer rejects (panic) when decoding fails", 10)
+	c.Rule("C06.rejection", "DecodeSerializedValues checks the error of every ReadUintFixed/ReadBytes before the next read or a successful return and reads the fields in the order E3|o| E3|w| E2 z E3 s o w E4|c| c; SingleInitializer rejects (panic) when decoding fails", 7)
 	readU, readB := c.Obj("PVM", "ReadUintFixed"), c.Obj("PVM", "ReadBytes")
 	reads := callsIn(d, readU, readB)
 	var order []string
@@ -104,9 +105,87 @@ func checkC06(c *Ctx) (string, []string) {
 		key := fmt.Sprintf("PVM.DecodeSerializedValues · read #%d %s", len(order), order[len(order)-1])
 		c.Check(len(succ) > 0 && !unchecked, "C06.rejection", key, k.Pos(), "error checked before the next read / successful return", "the error of this read can be ignored: decoding continues (or succeeds) after a short read")
 	}
-	wantOrder := "ReadUintFixed(3) ReadUintFixed(3) ReadUintFixed(2) ReadUintFixed(3) ReadBytes(PVM.ReadUintFixed(p0, 3)#0) ReadBytes(PVM.ReadUintFixed(PVM.ReadUintFixed(p0, 3)#1, 3)#0) ReadUintFixed(4) ReadBytes("
-	got := strings.Join(order, " ")
-	c.Check(strings.HasPrefix(got, wantOrder), "C06.rejection", "PVM.DecodeSerializedValues · field order", d.Pos(), "fields read in GP order with GP widths", "fields are read as ["+got+"]")
+	// field order as a sequence of reads in program order; a loop over a literal width table counts as its unrolling, and a
+	// length taken from a local array slot filled by that loop is the result of the corresponding round
+	{
+		type rd struct {
+			kind   string // "U<width>" or "B<provenance>"
+			result string // name of the value this read produces
+		}
+		var seq []rd
+		so := shapeOpts
+		so.cat, so.seqLit = true, true
+		nU := 0
+		slotOf := map[string]string{} // "A[k]" -> "u#n"
+		prov := func(v ssa.Value) string {
+			// Extract#0 of a ReadUintFixed call, possibly converted
+			if ex, ok := stripConv(v).(*ssa.Extract); ok && ex.Index == 0 {
+				if call, ok := ex.Tuple.(*ssa.Call); ok {
+					for i, k := range reads {
+						if k.(ssa.Value) == ssa.Value(call) {
+							return fmt.Sprintf("call#%d", i)
+						}
+					}
+				}
+			}
+			if u, ok := stripConv(v).(*ssa.UnOp); ok && u.Op == token.MUL {
+				if ia, ok := u.X.(*ssa.IndexAddr); ok {
+					if k, ok := constInt(ia.Index); ok {
+						return fmt.Sprintf("slot[%d]", k)
+					}
+				}
+			}
+			return exprStr(v, shapeOpts)
+		}
+		callName := map[int]string{}
+		for i, k := range reads {
+			args := k.Common().Args
+			switch calleeObject(k).Name() {
+			case "ReadUintFixed":
+				ws := expandSeq(exprStr(args[1], so))
+				stored := ""
+				// result stored into A[loop index]?
+				for _, r := range *k.(ssa.Value).Referrers() {
+					if ex, ok := r.(*ssa.Extract); ok && ex.Index == 0 && ex.Referrers() != nil {
+						for _, r2 := range *ex.Referrers() {
+							if st, ok := r2.(*ssa.Store); ok {
+								if ia, ok := st.Addr.(*ssa.IndexAddr); ok && exprStr(ia.Index, shapeOpts) == "*" {
+									stored = "slot"
+								}
+							}
+						}
+					}
+				}
+				for j, w := range ws {
+					w = strings.TrimPrefix(w, "*")
+					name := fmt.Sprintf("u#%d", nU)
+					nU++
+					if stored == "slot" && len(ws) > 1 {
+						slotOf[fmt.Sprintf("slot[%d]", j)] = name
+					} else {
+						callName[i] = name
+					}
+					seq = append(seq, rd{"U" + w, name})
+				}
+			case "ReadBytes":
+				p := prov(args[1])
+				if strings.HasPrefix(p, "call#") {
+					var n int
+					fmt.Sscanf(p, "call#%d", &n)
+					p = callName[n]
+				} else if nm, ok := slotOf[p]; ok {
+					p = nm
+				}
+				seq = append(seq, rd{"B(" + p + ")", ""})
+			}
+		}
+		var got []string
+		for _, r := range seq {
+			got = append(got, r.kind)
+		}
+		want := "U3 U3 U2 U3 B(u#0) B(u#1) U4 B(u#4)"
+		c.Check(strings.Join(got, " ") == want, "C06.rejection", "PVM.DecodeSerializedValues · field order", d.Pos(), "fields read in GP order with GP widths: E3|o| E3|w| E2 z E3 s, o, w, E4|c|, c", "fields are read as ["+strings.Join(got, " ")+"], GP order is ["+want+"]")
+	}
 	// SingleInitializer: decode error -> ExitPanic
 	{
 		var dcall ssa.Value
